@@ -227,7 +227,8 @@ static Plan gen_plan(uint64_t seed, int min_clients)
   if (crowd) { p.clients = 66 + static_cast<int>(r.below(25)); n = 150 + r.below(250); nfocus = 1 + r.below(2); focus_pct = 97; alias_pct = 35; }
   // churn storm: hundreds of caller threads come and go (a thread-per-task program), few alive at a time
   bool storm = !crowd && !hot_loop && r.below(1000) < 3;
-  if (storm) { if (n < 300) n = 300 + r.below(300); nfocus = 1 + r.below(2); focus_pct = 97; alias_pct = 35; if (p.clients < 2) p.clients = 2 + static_cast<int>(r.below(3)); }
+  size_t storm_restarts = 260 + r.below(340);
+  if (storm) { n = storm_restarts * (2 + r.below(3)); nfocus = 1; focus_pct = 98; alias_pct = 35; if (p.clients < 2) p.clients = 2 + static_cast<int>(r.below(3)); }   // every short-lived thread gets to make a few calls
   std::vector<uint16_t> focus;
   for (size_t i = 0; i < nfocus; ++i)
     {
@@ -300,8 +301,13 @@ static Plan gen_plan(uint64_t seed, int min_clients)
   // a growing count of threads the library has ever seen)
   if ((r.chance(15) || storm) && !crowd)
     {
-    size_t cnt = storm ? 260 + r.below(340) : r.chance(50) ? 1 + r.below(4) : 6 + r.below(14);
-    for (size_t k = 0; k < cnt; ++k) p.respawn.push_back({static_cast<uint32_t>(r.below(n)), static_cast<uint8_t>(r.below(p.clients))});
+    size_t cnt = storm ? storm_restarts : r.chance(50) ? 1 + r.below(4) : 6 + r.below(14);
+    // in a storm one or two callers are residents that are never restarted (the long-lived main/worker threads of a
+    // thread-per-task program); everyone else comes and goes
+    int residents = storm ? 1 + static_cast<int>(r.below(2)) : 0;
+    if (residents >= p.clients) residents = p.clients - 1;
+    for (size_t k = 0; k < cnt; ++k)
+      p.respawn.push_back({static_cast<uint32_t>(r.below(n)), static_cast<uint8_t>(residents + r.below(static_cast<uint64_t>(p.clients - residents)))});
     std::sort(p.respawn.begin(), p.respawn.end());
     }
   uint64_t h = mix64(0x1234, static_cast<uint64_t>(p.clients));
@@ -1210,16 +1216,24 @@ static std::vector<Conflict> find_conflicts(const Plan & p, const std::vector<Ac
     {
     auto & v = kv.second;
     bool any_write = false; for (auto & e : v) any_write = any_write || e.wrote;
-    if (!any_write || v.size() > 400) continue;
-    for (size_t x = 0; x < v.size(); ++x) for (size_t y = x + 1; y < v.size(); ++y)
+    if (!any_write) continue;
+    // touches are in execution order; pair each with the next few touches by OTHER callers (nearest in time = sharing
+    // at that moment).  This keeps a hot address (a resident caller's slot touched by hundreds of its own calls)
+    // in play without enumerating a quadratic number of pairs.
+    for (size_t x = 0; x < v.size(); ++x)
       {
-      if (!(v[x].wrote || v[y].wrote)) continue;
-      int i = std::min(v[x].item, v[y].item), j = std::max(v[x].item, v[y].item);
-      if (i == j || i < 0 || j >= static_cast<int>(p.items.size()) || p.items[i].client == p.items[j].client) continue;
-      auto & tab = (v[x].atomic && v[y].atomic) ? atomic_only : plain;
-      if (tab.size() > 4000 && !tab.count({i, j})) continue;
-      auto & ad = tab[{i, j}];
-      if (ad.size() < 8) ad.push_back(kv.first);
+      int taken = 0;
+      for (size_t y = x + 1; y < v.size() && y < x + 40 && taken < 4; ++y)
+        {
+        if (!(v[x].wrote || v[y].wrote)) continue;
+        int i = std::min(v[x].item, v[y].item), j = std::max(v[x].item, v[y].item);
+        if (i == j || i < 0 || j >= static_cast<int>(p.items.size()) || p.items[i].client == p.items[j].client) continue;
+        ++taken;
+        auto & tab = (v[x].atomic && v[y].atomic) ? atomic_only : plain;
+        if (tab.size() > 6000 && !tab.count({i, j})) continue;
+        auto & ad = tab[{i, j}];
+        if (ad.size() < 8) ad.push_back(kv.first);
+        }
       }
     }
   std::vector<Conflict> out;
@@ -1228,9 +1242,8 @@ static std::vector<Conflict> find_conflicts(const Plan & p, const std::vector<Ac
   auto same_threads = [&](const std::pair<int, int> & k)
     {
     for (auto & e : p.respawn)
-      if ((static_cast<int>(e.first) > k.first && e.second == p.items[k.first].client) ||
-          (static_cast<int>(e.first) > k.second && e.second == p.items[k.second].client) ||
-          (static_cast<int>(e.first) > k.first && static_cast<int>(e.first) <= k.second && e.second == p.items[k.second].client)) return false;
+      // the earlier caller's thread must still be the same one when the later call runs (in-place variant needs only that)
+      if (static_cast<int>(e.first) > k.first && static_cast<int>(e.first) <= k.second && e.second == p.items[k.first].client) return false;
     return true;
     };
   auto differ = [&](const std::pair<int, int> & k)
@@ -1301,6 +1314,36 @@ static Schedule tail_schedule(const Plan & p, const Conflict & c, uint64_t sseed
   return s;
   }
 
+// the plan unchanged, except that the earlier call is asked once more, by its own thread, at the moment the later call
+// runs - together with it.  Needed when the later caller is short-lived: it exists only around its own position.
+static Schedule inplace_schedule(const Plan & p, const Conflict & c, uint64_t sseed)
+  {
+  Rng r(sseed ^ 0x3c6ef372fe94f82bull);
+  Schedule s; s.clients = p.clients; s.items = p.items;
+  for (size_t k = 0; k < p.items.size(); ++k)
+    {
+    Segment g; g.den = 16; g.budget = 0; g.items = {static_cast<int>(k)};
+    for (auto & e : p.respawn) if (e.first == k) g.respawn.push_back(e.second);
+    if (static_cast<int>(k) == c.j)
+      {
+      s.items.push_back(p.items[c.i]);                       // the earlier question again, by the earlier caller's thread
+      g.items.push_back(static_cast<int>(s.items.size() - 1)); g.focus = c.addrs;
+      if (r.chance(60)) { g.den = 1; g.budget = 1 + static_cast<int>(r.below(4)); } else { g.den = 8; g.budget = 2 + static_cast<int>(r.below(5)); }
+      }
+    s.segs.push_back(g);
+    if (static_cast<int>(k) == c.j)
+      for (int q = 0; q < 3; ++q)
+        {   // echo probes
+        int src = (q == 1) ? c.j : c.i;
+        s.items.push_back(p.items[src]);
+        if (q == 2) s.items.back().client = p.items[c.j].client;
+        Segment e; e.den = 0; e.budget = 0; e.items = {static_cast<int>(s.items.size() - 1)};
+        s.segs.push_back(e);
+        }
+    }
+  return s;
+  }
+
 // fine mode: whole-call reference execution vs executions with concurrent segments and seeded preemption
 static int do_scan_fine(uint64_t seed0, uint64_t count, const char * hashfile, uint64_t max_findings)
   {
@@ -1332,7 +1375,7 @@ static int do_scan_fine(uint64_t seed0, uint64_t count, const char * hashfile, u
       }
     st.access_records += oref.access.size(); st.nonstack_writes += writes_seen; st.conflict_pairs += conflicts.size();
     if (!conflicts.empty()) ++st.plans_with_conflicts;
-    int directed = conflicts.empty() ? 0 : static_cast<int>(std::min<size_t>(plain_pairs ? 8 : 2, conflicts.size()));
+    int directed = conflicts.empty() ? 0 : static_cast<int>(std::min<size_t>(plain_pairs ? 9 : 2, conflicts.size()));
     if (getenv("HSIM_DIRECTED") && plain_pairs) directed = atoi(getenv("HSIM_DIRECTED"));
     account_plan(st, p, ra, seed, 1 + variants + directed);
     bool found = false;
@@ -1346,7 +1389,7 @@ static int do_scan_fine(uint64_t seed0, uint64_t count, const char * hashfile, u
         Rng pick(sseed);
         size_t pool = plain_pairs ? static_cast<size_t>(plain_pairs) : conflicts.size();
         const Conflict & cf = conflicts[pick.below(pool)];
-        sc = (v % 2) ? tail_schedule(p, cf, sseed) : directed_schedule(p, cf, sseed); ++st.directed_execs;
+        sc = (v % 3 == 1) ? tail_schedule(p, cf, sseed) : (v % 3 == 2) ? inplace_schedule(p, cf, sseed) : directed_schedule(p, cf, sseed); ++st.directed_execs;
         }
       Outcome oc = run_schedule(sc, false, sseed);
       ++st.fine_execs;
